@@ -7,6 +7,11 @@
 //       semantics (the usual field formulas, promotion real-with-complex -> complex, length rules),
 //       tolerance = running bound with 4*eps*scale per arithmetic operation,
 //   (3) by the Lean model (Model/ArrayOps.lean) through the CORR line `prog ...`.
+// In (1) the interpreter hands owned intermediates (inner results, literals) to the next overload as RVALUES half of the time, so
+// overloads taking temporaries are reached; every result in the CORR lines carries a sign-of-zero token (`z:+-.`), because
+// check.py's numeric comparison of float tokens cannot tell -0 from +0.
+// Section FORMS: 135 COMPILED C++ expressions whose intermediates are genuine temporaries (CORR tag `form`), compared bit for
+// bit with the step-by-step evaluation through named arrays and consumed in every prvalue idiom (lifetime / ownership of results).
 // Further CORR tags: `sc` (the cmplx_t scalar operators of types.h, incl. real-on-the-left forms),
 // `zpad`, `concat` (utils.h), `mcplx mre mim mconj mcast` (lib/math.cpp).
 #include "common.hpp"
@@ -14,6 +19,7 @@
 #include <memory>
 #include <cfloat>
 #include <climits>
+#include <chrono>
 using namespace dsplib;
 typedef long double LD;
 typedef std::complex<LD> CL;
@@ -208,8 +214,19 @@ struct RV {   // runtime value: a reference to an environment variable (so alias
     const arr_cmplx* c = nullptr;
     std::shared_ptr<arr_real> ro;
     std::shared_ptr<arr_cmplx> co;
+    bool mv = false;              // owned intermediate that is handed to the next overload as an RVALUE (std::move)
+    bool owned() const { return ro || co; }
     int size() const { return cx ? c->size() : r->size(); }
 };
+static bool g_allow_mv = true;    // false: every operand is passed as a named lvalue (the step-by-step reference of the FORMS section)
+static void mark(RV& v, vh::Rng& aux) { if (g_allow_mv && v.owned() && aux.coin()) v.mv = true; }
+// calls f with the array of v in the value category chosen for it: `const arr&` (named operand) or `arr&&` (temporary)
+template<class F> static RV disp(const RV& v, F&& f) {
+    if (v.cx) { if (v.mv) return f(std::move(*v.co)); return f(static_cast<const arr_cmplx&>(*v.c)); }
+    if (v.mv) return f(std::move(*v.ro));
+    return f(static_cast<const arr_real&>(*v.r));
+}
+#define FWD(x) std::forward<decltype(x)>(x)
 static RV own(arr_real a) { RV v; v.cx = false; v.ro = std::make_shared<arr_real>(std::move(a)); v.r = v.ro.get(); return v; }
 static RV own(arr_cmplx a) { RV v; v.cx = true; v.co = std::make_shared<arr_cmplx>(std::move(a)); v.c = v.co.get(); return v; }
 static RV refv(const arr_real& a) { RV v; v.cx = false; v.r = &a; return v; }
@@ -222,6 +239,15 @@ static std::vector<uint64_t> bits(const RV& v) {
     return b;
 }
 static std::string showv(const RV& v) { return v.cx ? "C " + vh::hxs(*v.c) : "R " + vh::hxs(*v.r); }
+// result values carry a sign-of-zero token (one char per component: + for +0, - for -0, . otherwise): check.py compares
+// float tokens numerically, so -0 == +0 there; this token is compared as a string
+static char zch(double d) { return d == 0 ? (std::signbit(d) ? '-' : '+') : '.'; }
+static std::string showvz(const RV& v) {
+    std::string z = " z:";
+    if (v.cx) for (int i = 0; i < v.c->size(); ++i) { z += zch((*v.c)[i].re); z += zch((*v.c)[i].im); }
+    else for (int i = 0; i < v.r->size(); ++i) z += zch((*v.r)[i]);
+    return showv(v) + z;
+}
 
 struct Threw {};
 static std::string g_ctx;   // json of the program in flight
@@ -238,8 +264,13 @@ static RV guarded(const std::string& label, std::initializer_list<const RV*> ope
     bool threw = false;
     try { res = f(); } catch (const std::exception&) { threw = true; }
     size_t i = 0;
-    for (auto p : operands) if (bits(*p) != snap[i++]) fail(threw ? "C03:mismatch-modified" : "C03:operand-modified", label);
+    bool anymv = false;
+    for (auto p : operands) {   // an operand given away as an rvalue may be consumed; named operands must be bit-identical
+        if (p->mv) { anymv = true; ++i; continue; }
+        if (bits(*p) != snap[i++]) fail(threw ? "C03:mismatch-modified" : "C03:operand-modified", label);
+    }
     out.stat("ov_" + label);
+    if (anymv) out.stat("rvalue_operand_calls");
     out.n_oracle++;
     if (threw) { out.stat("ovthrow_" + label); throw Threw{}; }
     return res;
@@ -247,89 +278,86 @@ static RV guarded(const std::string& label, std::initializer_list<const RV*> ope
 static const char* KN(bool cx) { return cx ? "C" : "R"; }
 static const char* SKN[4] = {"real", "int", "cmplx", "stdcomplex"};
 
-template<class A, class B> static RV do_aa(int op, const A& a, const B& b) {
-    switch (op) { case ADD: return own(a + b); case SUB: return own(a - b); case MUL: return own(a * b); default: return own(a / b); }
+// (operands arrive as `const arr&` or as `arr&&`, see disp: overloads taking temporaries are reached with real rvalues)
+template<class A, class B> static RV do_aa(int op, A&& a, B&& b) {
+    switch (op) { case ADD: return own(FWD(a) + FWD(b)); case SUB: return own(FWD(a) - FWD(b)); case MUL: return own(FWD(a) * FWD(b)); default: return own(FWD(a) / FWD(b)); }
 }
 static RV call_aa(int op, const RV& a, const RV& b) {
     return guarded(std::string("aa_") + KN(a.cx) + KN(b.cx) + "_" + OPN[op], {&a, &b}, [&]() -> RV {
-        if (!a.cx && !b.cx) return do_aa(op, *a.r, *b.r);
-        if (!a.cx && b.cx) return do_aa(op, *a.r, *b.c);
-        if (a.cx && !b.cx) return do_aa(op, *a.c, *b.r);
-        return do_aa(op, *a.c, *b.c);
+        return disp(a, [&](auto&& x) -> RV { return disp(b, [&](auto&& y) -> RV { return do_aa(op, FWD(x), FWD(y)); }); });
     });
 }
-template<class A, class S> static RV do_as(int op, const A& a, const S& s) {
-    if constexpr (std::is_same_v<A, arr_real> && std::is_same_v<S, std::complex<double>>) {
+template<class A, class S> static RV do_as(int op, A&& a, const S& s) {
+    if constexpr (std::is_same_v<std::decay_t<A>, arr_real> && std::is_same_v<S, std::complex<double>>) {
         if (op != MUL) std::abort();
-        return own(a * s);
+        return own(FWD(a) * s);
     } else {
-        switch (op) { case ADD: return own(a + s); case SUB: return own(a - s); case MUL: return own(a * s); default: return own(a / s); }
+        switch (op) { case ADD: return own(FWD(a) + s); case SUB: return own(FWD(a) - s); case MUL: return own(FWD(a) * s); default: return own(FWD(a) / s); }
     }
 }
-template<class A> static RV do_as_k(int op, const A& a, const Sc& s) {
+template<class A> static RV do_as_k(int op, A&& a, const Sc& s) {
     switch (s.kind) {
-    case 0: { const real_t x = s.re; return do_as(op, a, x); }
-    case 1: { const int x = s.iv; return do_as(op, a, x); }
-    case 2: { const cmplx_t x(s.re, s.im); return do_as(op, a, x); }
-    default: { const std::complex<double> x(s.re, s.im); return do_as(op, a, x); }
+    case 0: { const real_t x = s.re; return do_as(op, FWD(a), x); }
+    case 1: { const int x = s.iv; return do_as(op, FWD(a), x); }
+    case 2: { const cmplx_t x(s.re, s.im); return do_as(op, FWD(a), x); }
+    default: { const std::complex<double> x(s.re, s.im); return do_as(op, FWD(a), x); }
     }
 }
 static RV call_as(int op, const RV& a, const Sc& s) {
     return guarded(std::string("as_") + KN(a.cx) + "_" + SKN[s.kind] + "_" + OPN[op], {&a}, [&]() -> RV {
-        return a.cx ? do_as_k(op, *a.c, s) : do_as_k(op, *a.r, s);
+        return disp(a, [&](auto&& x) -> RV { return do_as_k(op, FWD(x), s); });
     });
 }
-template<class S, class A> static RV do_sa(int op, const S& s, const A& a) {
-    if constexpr (std::is_same_v<A, arr_real> && std::is_same_v<S, std::complex<double>>) {
+template<class S, class A> static RV do_sa(int op, const S& s, A&& a) {
+    if constexpr (std::is_same_v<std::decay_t<A>, arr_real> && std::is_same_v<S, std::complex<double>>) {
         if (op != MUL) std::abort();
-        return own(s * a);
+        return own(s * FWD(a));
     } else {
-        switch (op) { case ADD: return own(s + a); case SUB: return own(s - a); case MUL: return own(s * a); default: return own(s / a); }
+        switch (op) { case ADD: return own(s + FWD(a)); case SUB: return own(s - FWD(a)); case MUL: return own(s * FWD(a)); default: return own(s / FWD(a)); }
     }
 }
-template<class A> static RV do_sa_k(int op, const Sc& s, const A& a) {
+template<class A> static RV do_sa_k(int op, const Sc& s, A&& a) {
     switch (s.kind) {
-    case 0: { const real_t x = s.re; return do_sa(op, x, a); }
-    case 1: { const int x = s.iv; return do_sa(op, x, a); }
-    case 2: { const cmplx_t x(s.re, s.im); return do_sa(op, x, a); }
-    default: { const std::complex<double> x(s.re, s.im); return do_sa(op, x, a); }
+    case 0: { const real_t x = s.re; return do_sa(op, x, FWD(a)); }
+    case 1: { const int x = s.iv; return do_sa(op, x, FWD(a)); }
+    case 2: { const cmplx_t x(s.re, s.im); return do_sa(op, x, FWD(a)); }
+    default: { const std::complex<double> x(s.re, s.im); return do_sa(op, x, FWD(a)); }
     }
 }
 static RV call_sa(int op, const Sc& s, const RV& a) {
     return guarded(std::string("sa_") + SKN[s.kind] + "_" + KN(a.cx) + "_" + OPN[op], {&a}, [&]() -> RV {
-        return a.cx ? do_sa_k(op, s, *a.c) : do_sa_k(op, s, *a.r);
+        return disp(a, [&](auto&& x) -> RV { return do_sa_k(op, s, FWD(x)); });
     });
 }
 static RV call_cat(const RV& a, const RV& b) {
     return guarded(std::string("cat_") + KN(a.cx) + KN(b.cx), {&a, &b}, [&]() -> RV {
-        if (!a.cx && !b.cx) return own(*a.r | *b.r);
-        if (!a.cx && b.cx) return own(*a.r | *b.c);
-        if (a.cx && !b.cx) return own(*a.c | *b.r);
-        return own(*a.c | *b.c);
+        return disp(a, [&](auto&& x) -> RV { return disp(b, [&](auto&& y) -> RV { return own(FWD(x) | FWD(y)); }); });
     });
 }
 // (`-arr_cmplx` was ill-formed before /repo commit 34b0f59: `base_array<T> r{_vec}` selected the initializer_list constructor
 // because cmplx_t is constructible from anything; repaired, so both element types go through the real operator-().)
-template<class A> static RV do_neg(const A& a) { return own(-a); }
 static RV call_neg(const RV& a) {
-    return guarded(std::string("neg_") + KN(a.cx), {&a}, [&]() -> RV { return a.cx ? do_neg(*a.c) : do_neg(*a.r); });
+    return guarded(std::string("neg_") + KN(a.cx), {&a}, [&]() -> RV { return disp(a, [&](auto&& x) -> RV { return own(-FWD(x)); }); });
 }
-static RV call_pos(const RV& a) {
-    return guarded(std::string("pos_") + KN(a.cx), {&a}, [&]() -> RV { return a.cx ? own(arr_cmplx(+*a.c)) : own(arr_real(+*a.r)); });
+static RV call_pos(const RV& a) {   // unary plus returns a reference to its operand: copied inside the same full expression
+    return guarded(std::string("pos_") + KN(a.cx), {&a}, [&]() -> RV {
+        return disp(a, [&](auto&& x) -> RV { return own(std::decay_t<decltype(x)>(+FWD(x))); });
+    });
 }
 static RV call_mask(const RV& a, const std::vector<int>& m) {
     std::vector<bool> mb(m.size());
     for (size_t i = 0; i < m.size(); ++i) mb[i] = m[i] != 0;
-    return guarded(std::string("mask_") + KN(a.cx), {&a}, [&]() -> RV { return a.cx ? own((*a.c)[mb]) : own((*a.r)[mb]); });
+    return guarded(std::string("mask_") + KN(a.cx), {&a}, [&]() -> RV { return disp(a, [&](auto&& x) -> RV { return own(FWD(x)[mb]); }); });
 }
 static RV call_idx(const RV& a, const std::vector<int>& idx, bool as_arr_int) {
     return guarded(std::string("idx_") + KN(a.cx) + (as_arr_int ? "_arrint" : "_vector"), {&a}, [&]() -> RV {
-        if (as_arr_int) { const arr_int ai(idx); return a.cx ? own((*a.c)[ai]) : own((*a.r)[ai]); }
-        return a.cx ? own((*a.c)[idx]) : own((*a.r)[idx]);
+        if (as_arr_int) { const arr_int ai(idx); return disp(a, [&](auto&& x) -> RV { return own(FWD(x)[ai]); }); }
+        return disp(a, [&](auto&& x) -> RV { return own(FWD(x)[idx]); });
     });
 }
 
 struct Var { bool cx = false; arr_real r; arr_cmplx c; };
+static bool same_bits_rv(const RV& v, const std::vector<uint64_t>& b) { return bits(v) == b; }
 static RV refvar(const Var& v) { return v.cx ? refv(v.c) : refv(v.r); }
 
 static RV reval(const Expr& e, std::vector<Var>& env, vh::Rng& aux) {
@@ -339,19 +367,21 @@ static RV reval(const Expr& e, std::vector<Var>& env, vh::Rng& aux) {
         if (e.lcx) { arr_cmplx a(int(e.data.size() / 2)); for (int i = 0; i < a.size(); ++i) a[i] = cmplx_t(e.data[2 * i], e.data[2 * i + 1]); return own(std::move(a)); }
         arr_real a(int(e.data.size())); for (int i = 0; i < a.size(); ++i) a[i] = e.data[i]; return own(std::move(a));
     }
-    case NEG: { RV a = reval(e.ch[0], env, aux); return call_neg(a); }
-    case POS: { RV a = reval(e.ch[0], env, aux); return call_pos(a); }
-    case AA: { RV a = reval(e.ch[0], env, aux); RV b = reval(e.ch[1], env, aux); return call_aa(e.op, a, b); }
-    case AS: { RV a = reval(e.ch[0], env, aux); return call_as(e.op, a, e.s); }
-    case SA: { RV a = reval(e.ch[0], env, aux); return call_sa(e.op, e.s, a); }
-    case CAT: { RV a = reval(e.ch[0], env, aux); RV b = reval(e.ch[1], env, aux); return call_cat(a, b); }
-    case MASK: { RV a = reval(e.ch[0], env, aux); return call_mask(a, e.ints); }
-    default: { RV a = reval(e.ch[0], env, aux); return call_idx(a, e.ints, aux.coin()); }
+    // intermediates (owned results, literals) are handed on as rvalues half of the time: `a - (b * c)` reaches the overloads
+    // with the value categories a C++ expression has; variables always stay named lvalues
+    case NEG: { RV a = reval(e.ch[0], env, aux); mark(a, aux); return call_neg(a); }
+    case POS: { RV a = reval(e.ch[0], env, aux); mark(a, aux); return call_pos(a); }
+    case AA: { RV a = reval(e.ch[0], env, aux); RV b = reval(e.ch[1], env, aux); mark(a, aux); mark(b, aux); return call_aa(e.op, a, b); }
+    case AS: { RV a = reval(e.ch[0], env, aux); mark(a, aux); return call_as(e.op, a, e.s); }
+    case SA: { RV a = reval(e.ch[0], env, aux); mark(a, aux); return call_sa(e.op, e.s, a); }
+    case CAT: { RV a = reval(e.ch[0], env, aux); RV b = reval(e.ch[1], env, aux); mark(a, aux); mark(b, aux); return call_cat(a, b); }
+    case MASK: { RV a = reval(e.ch[0], env, aux); mark(a, aux); return call_mask(a, e.ints); }
+    default: { RV a = reval(e.ch[0], env, aux); mark(a, aux); return call_idx(a, e.ints, aux.coin()); }
     }
 }
 
-template<class A, class B> static void do_ca(int op, A& a, const B& b) {
-    switch (op) { case ADD: a += b; break; case SUB: a -= b; break; case MUL: a *= b; break; default: a /= b; }
+template<class A, class B> static void do_ca(int op, A& a, B&& b) {
+    switch (op) { case ADD: a += FWD(b); break; case SUB: a -= FWD(b); break; case MUL: a *= FWD(b); break; default: a /= FWD(b); }
 }
 template<class A> static void do_cs_k(int op, A& a, const Sc& s) {
     switch (s.kind) {
@@ -387,27 +417,42 @@ static RV rexec(const Stmt& s, std::vector<Var>& env, vh::Rng& aux) {
         out.stat(std::string("ov_copy_ctor_") + KN(t.cx));
         const RV sv = refvar(src);
         const auto snap = bits(sv);
-        if (t.cx) { arr_cmplx c(src.c); if (c.size() && c.data() == src.c.data()) fail("C03:copy-shares-storage", "ctor"); t.c = std::move(c); }
+        if (aux.coin()) {     // copies made by a container: std::vector<arr>(3, prototype)
+            out.stat(std::string("ov_copy_vector_fill_") + KN(t.cx));
+            if (t.cx) {
+                std::vector<arr_cmplx> vv(3, src.c);
+                if (vv[1].size() && (vv[1].data() == src.c.data() || vv[1].data() == vv[0].data() || vv[1].data() == vv[2].data())) fail("C03:copy-shares-storage", "vector(n, proto)");
+                if (vv[0].size()) { vv[0][0] = cmplx_t(-777, -777); vv[2] *= 3.0; }   // the siblings are written, the one taken must not notice
+                if (!same_bits_rv(refv(vv[1]), snap)) fail("C03:copy-shares-storage", "vector(n, proto) sibling written");
+                t.c = std::move(vv[1]);
+            } else {
+                std::vector<arr_real> vv(3, src.r);
+                if (vv[1].size() && (vv[1].data() == src.r.data() || vv[1].data() == vv[0].data() || vv[1].data() == vv[2].data())) fail("C03:copy-shares-storage", "vector(n, proto)");
+                if (vv[0].size()) { vv[0][0] = -777; vv[2] *= 3.0; }
+                if (!same_bits_rv(refv(vv[1]), snap)) fail("C03:copy-shares-storage", "vector(n, proto) sibling written");
+                t.r = std::move(vv[1]);
+            }
+        } else if (t.cx) { arr_cmplx c(src.c); if (c.size() && c.data() == src.c.data()) fail("C03:copy-shares-storage", "ctor"); t.c = std::move(c); }
         else { arr_real c(src.r); if (c.size() && c.data() == src.r.data()) fail("C03:copy-shares-storage", "ctor"); t.r = std::move(c); }
         if (s.j != s.k && bits(refvar(src)) != snap) fail("C03:operand-modified", "copy_ctor");
         return refvar(t);
     }
     case S_CA: {
         RV b = reval(s.e, env, aux);
+        mark(b, aux);
         const bool alias = (b.cx ? (const void*)b.c == (const void*)&t.c : (const void*)b.r == (const void*)&t.r);
         const RV tv = refvar(t);
         const std::string label = std::string("ca_") + KN(t.cx) + KN(b.cx) + "_" + OPN[s.op] + (alias ? "_alias" : "");
         const auto st = bits(tv), sb = bits(b);
         bool threw = false;
         try {
-            if (!t.cx && !b.cx) do_ca(s.op, t.r, *b.r);
-            else if (t.cx && !b.cx) do_ca(s.op, t.c, *b.r);
-            else if (t.cx && b.cx) do_ca(s.op, t.c, *b.c);
-            else std::abort();
+            if (!t.cx && b.cx) std::abort();
+            disp(b, [&](auto&& y) -> RV { if (t.cx) do_ca(s.op, t.c, FWD(y)); else if constexpr (std::is_same_v<std::decay_t<decltype(y)>, arr_real>) do_ca(s.op, t.r, FWD(y)); return RV(); });
         } catch (const std::exception&) { threw = true; }
         out.stat("ov_" + label);
+        if (b.mv) out.stat("rvalue_operand_calls");
         out.n_oracle++;
-        if (!alias && bits(b) != sb) fail(threw ? "C03:mismatch-modified" : "C03:operand-modified", label);
+        if (!alias && !b.mv && bits(b) != sb) fail(threw ? "C03:mismatch-modified" : "C03:operand-modified", label);
         if (threw) {
             out.stat("ovthrow_" + label);
             if (bits(refvar(t)) != st) fail("C03:mismatch-modified", label);
@@ -424,16 +469,16 @@ static RV rexec(const Stmt& s, std::vector<Var>& env, vh::Rng& aux) {
     }
     default: {
         RV b = reval(s.e, env, aux);
+        mark(b, aux);
         const bool alias = (b.cx ? (const void*)b.c == (const void*)&t.c : (const void*)b.r == (const void*)&t.r);
         const std::string label = std::string("cata_") + KN(t.cx) + KN(b.cx) + (alias ? "_alias" : "");
         const auto sb = bits(b);
         out.stat("ov_" + label);
+        if (b.mv) out.stat("rvalue_operand_calls");
         out.n_oracle++;
-        if (!t.cx && !b.cx) t.r |= *b.r;
-        else if (t.cx && !b.cx) t.c |= *b.r;
-        else if (t.cx && b.cx) t.c |= *b.c;
-        else std::abort();
-        if (!alias && bits(b) != sb) fail("C03:operand-modified", label);
+        if (!t.cx && b.cx) std::abort();
+        disp(b, [&](auto&& y) -> RV { if (t.cx) t.c |= FWD(y); else if constexpr (std::is_same_v<std::decay_t<decltype(y)>, arr_real>) t.r |= FWD(y); return RV(); });
+        if (!alias && !b.mv && bits(b) != sb) fail("C03:operand-modified", label);
         return refvar(t);
     }
     }
@@ -477,9 +522,17 @@ struct Gen {
         if (c < 12) return -0.0;
         if (c < 16) return rng.coin() ? 1.0 : -1.0;
         if (c < 21) return double(rng.range(-9, 9));
-        if (mode == 0) return rng.gauss() * std::pow(10.0, rng.range(-3, 3));
+        if (mode == 0) {
+            if (c < 24) return (rng.coin() ? 1 : -1) * std::ldexp(1.0, rng.range(-12, 12));   // exact powers of two
+            return rng.gauss() * std::pow(10.0, rng.range(-3, 3));
+        }
         if (c < 26) return (rng.coin() ? 1 : -1) * 1e100;
         if (c < 31) return (rng.coin() ? 1 : -1) * 1e-100;
+        if (c < 34) return (rng.coin() ? 1 : -1) * std::ldexp(1.0, rng.range(-332, 332));     // exact powers of two over the whole claimed range
+        if (c < 36) {   // absolute scale classes; the ones beyond 1e-100..1e100 (denormals included) are outside the oracle's claim, CORR still compares them bit for bit
+            static const double S[] = {1e-300, 1e-17, 1e-8, 1e8, 1e17, 1e300, 4.9406564584124654e-324, 1.1125369292536007e-308, 2.2250738585072014e-308, 1.7976931348623157e308};
+            return (rng.coin() ? 1 : -1) * S[rng.next() % 10];
+        }
         return (rng.coin() ? 1 : -1) * (1 + 8.9 * rng.unit()) * std::pow(10.0, rng.range(-100, 99));
     }
     Sc scalar(bool allow_cx) {
@@ -660,7 +713,7 @@ static void run_program(vh::Rng& rng, int L, int mode, int maxDepth, int maxStmt
         out.stat(oerr ? "stmt_err" : "stmt_ok");
         if (oerr && !g.broke) out.stat("stmt_err_unplanned");
         if (!threw && !oerr) compare(got, want, where);
-        rhs += threw ? " ERR" : " " + showv(got);
+        rhs += threw ? " ERR" : " " + showvz(got);
         // environment: bystanders bit-identical, a failed statement changes nothing, target = oracle's
         const bool mutating = (s.tag != S_E) && !threw;
         for (int k = 0; k < nv; ++k) {
@@ -671,14 +724,547 @@ static void run_program(vh::Rng& rng, int L, int mode, int maxDepth, int maxStmt
         if (!threw) for (int k = 0; k < nv; ++k) g.vlen[k] = refvar(env[k]).size();
     }
     rhs += " ENV";
-    for (int k = 0; k < nv; ++k) rhs += " " + showv(refvar(env[k]));
+    for (int k = 0; k < nv; ++k) rhs += " " + showvz(refvar(env[k]));
     if (emit_corr) {
         out.corr(lhs + " " + std::to_string(ns) + body, rhs.substr(1));
         if (L <= 6 && mode == 0) out.sample("{\"program\":\"" + lhs + " " + std::to_string(ns) + body + "\",\"result\":\"" + rhs.substr(1) + "\"}");
     }
     out.stat(mode ? "programs_wide" : "programs_moderate");
-    out.stat(L <= 64 ? "programs_len_0_64" : "programs_len_65_10000");
+    out.stat(L <= 64 ? "programs_len_0_64" : L <= 10000 ? "programs_len_65_10000" : "programs_len_65536_196700");
 }
+
+// ------------------------------------------------------------------ compiled expression FORMS with C++ temporaries
+// The random programs above reach the overloads through an interpreter. Here every expression is a piece of COMPILED C++ whose
+// intermediates are genuine temporaries (prvalues of nested operator calls, `tmp(x)` = a prvalue copy of a named operand), for
+// every operator with the temporary on the left, on the right and on both sides, nested two and three deep, scalar on either side
+// of a temporary, unary minus, concatenation and selection of temporaries, compound forms with a temporary right operand.
+// The SAME source text is instantiated twice: with the real arrays, and with `Sym` operands whose operators record the expression
+// tree. The tree is evaluated (1) step by step through NAMED arrays (lvalue overloads only, g_allow_mv = false), (2) by the
+// long double oracle, (3) by the Lean model through the CORR tag `form`. The compiled expression must agree with (1) BIT FOR BIT
+// (sign of zero included; NaN = NaN) in every consumption idiom of a prvalue: copy-initialisation, `const auto&`, `auto&&`,
+// range-for, by-const-reference argument of a function that allocates and computes before it reads, reference member of an
+// aggregate, `decltype(auto)`-style return. Between binding and reading, arrays of the same size are allocated, filled and
+// sent through library operators, so a result that does not own its storage shows up as a changed value (and as an ASan report).
+// (~1200 instantiated probe functions: not optimised, otherwise the sanitizer build of this file takes a quarter of an hour; the
+// library's operator templates they call are defined in array.h and are compiled as usual)
+#ifdef __clang__
+#pragma clang optimize off
+#endif
+struct Aux { std::vector<bool> m, md; std::vector<int> ix, ibad; arr_int ia; };
+template<class X> static X tmp(const X& x) { return x; }   // prvalue copy of a named operand
+
+struct Sym {
+    Expr e;
+    Sym operator[](const std::vector<bool>& m) const { Sym r; r.e.tag = MASK; for (bool b : m) r.e.ints.push_back(b ? 1 : 0); r.e.ch = {e}; return r; }
+    Sym operator[](const std::vector<int>& ix) const { Sym r; r.e.tag = IDX; r.e.ints = ix; r.e.ch = {e}; return r; }
+    Sym operator[](const arr_int& ia) const { Sym r; r.e.tag = IDX; for (int i = 0; i < ia.size(); ++i) r.e.ints.push_back(ia[i]); r.e.ch = {e}; return r; }
+};
+static Sym symvar(int k) { Sym s; s.e.tag = VAR; s.e.k = k; return s; }
+static Sc mksc(real_t x) { Sc s; s.kind = 0; s.re = x; return s; }
+static Sc mksc(int x) { Sc s; s.kind = 1; s.iv = x; s.re = x; return s; }
+static Sc mksc(const cmplx_t& z) { Sc s; s.kind = 2; s.re = z.re; s.im = z.im; return s; }
+static Sc mksc(const std::complex<double>& z) { Sc s; s.kind = 3; s.re = z.real(); s.im = z.imag(); return s; }
+template<class S> constexpr bool is_sck = std::is_same_v<S, real_t> || std::is_same_v<S, int> || std::is_same_v<S, cmplx_t> || std::is_same_v<S, std::complex<double>>;
+static Sym sym_aa(int op, const Sym& a, const Sym& b) { Sym r; r.e.tag = AA; r.e.op = op; r.e.ch = {a.e, b.e}; return r; }
+static Sym sym_as(int op, const Sym& a, const Sc& s) { Sym r; r.e.tag = AS; r.e.op = op; r.e.s = s; r.e.ch = {a.e}; return r; }
+static Sym sym_sa(int op, const Sc& s, const Sym& a) { Sym r; r.e.tag = SA; r.e.op = op; r.e.s = s; r.e.ch = {a.e}; return r; }
+#define SYM_OPS(OPSYM, OPC) \
+    [[maybe_unused]] static Sym operator OPSYM(const Sym& a, const Sym& b) { return sym_aa(OPC, a, b); } \
+    template<class S, class = std::enable_if_t<is_sck<S>>> static Sym operator OPSYM(const Sym& a, const S& s) { return sym_as(OPC, a, mksc(s)); } \
+    template<class S, class = std::enable_if_t<is_sck<S>>> static Sym operator OPSYM(const S& s, const Sym& a) { return sym_sa(OPC, mksc(s), a); }
+SYM_OPS(+, ADD) SYM_OPS(-, SUB) SYM_OPS(*, MUL) SYM_OPS(/, DIV)
+[[maybe_unused]] static Sym operator-(const Sym& a) { Sym r; r.e.tag = NEG; r.e.ch = {a.e}; return r; }
+[[maybe_unused]] static Sym operator+(const Sym& a) { Sym r; r.e.tag = POS; r.e.ch = {a.e}; return r; }
+[[maybe_unused]] static Sym operator|(const Sym& a, const Sym& b) { Sym r; r.e.tag = CAT; r.e.ch = {a.e, b.e}; return r; }
+
+static bool same_word(uint64_t a, uint64_t b) {
+    if (a == b) return true;
+    double x, y; std::memcpy(&x, &a, 8); std::memcpy(&y, &b, 8);
+    return std::isnan(x) && std::isnan(y);
+}
+static std::string jbits(const RV& v, size_t cap = 8) {
+    std::string s = v.cx ? "{\"kind\":\"C\",\"v\":[" : "{\"kind\":\"R\",\"v\":[";
+    const auto b = bits(v);
+    for (size_t i = 0; i < b.size() && i < cap * (v.cx ? 2 : 1); ++i) { double d; std::memcpy(&d, &b[i], 8); if (i) s += ","; s += "\"" + vh::jnum(d) + (d == 0 && std::signbit(d) && vh::jnum(d)[0] != '-' ? "(-0)" : "") + "\""; }
+    return s + "]}";
+}
+
+template<class RT> struct Holder { const RT& r; };
+
+struct Probe {
+    std::string form, text, kinds, probe, operands_json;
+    int L = 0;
+    long long index = 0;
+    bool ref_threw = false, ref_cx = false;
+    std::vector<uint64_t> ref;              // the step-by-step result through named arrays (bits)
+    int ref_n = 0;                          // its element count
+    std::vector<RV> ops;                    // the named operands of the compiled expression
+    std::vector<std::vector<uint64_t>> snap;
+    std::vector<arr_real> junk_r;
+    std::vector<arr_cmplx> junk_c;
+    std::vector<uint64_t> rf;
+    bool have_direct = false, direct_threw = false;
+    std::string direct_txt;                 // showvz of the copy-initialised result (impl side of the CORR line)
+    std::vector<uint64_t> direct;           // its bits: the baseline of the lifetime idioms (a wrong VALUE is reported once, by "value")
+    bool isvalue() const { return probe == "value" || probe == "compound"; }
+    bool vs_direct() const { return !isvalue() && have_direct && !direct_threw; }
+    const std::vector<uint64_t>& base() const { return vs_direct() ? direct : ref; }
+    const char* basename() const { return vs_direct() ? "the copy-initialised result of the same expression" : "step by step through named arrays"; }
+    std::shared_ptr<arr_real> keep_r;       // compound forms: final value of the target
+    std::shared_ptr<arr_cmplx> keep_c;
+    bool active = false;
+
+    std::string json(const std::string& what) const {
+        return "{\"what\":\"" + what + "\",\"form\":\"" + form + "\",\"expr\":\"" + text + "\",\"kinds\":\"" + kinds + "\",\"probe\":\"" + probe + "\",\"L\":" + std::to_string(L) +
+               ",\"seed\":" + std::to_string((unsigned long long)g_seed) + ",\"index\":" + std::to_string(index) + operands_json + "}";
+    }
+    void failp(const std::string& key, const std::string& what) { out.fail(key, json(what)); out.stat("form_failures"); }
+    const char* lifekey() const { return isvalue() ? "C03:temporary-value" : "C03:temporary-lifetime"; }
+    void begin(const char* p) {
+        end();
+        probe = p;
+        active = true;
+        vh::set_current(lifekey(), json("crash / sanitizer report / hang while this idiom consumed the expression"));
+        vh::watch(60);
+        out.stat(std::string("probe_") + p);
+    }
+    void end() {
+        if (!active) return;
+        active = false;
+        vh::unwatch();
+        vh::clear_current();
+        junk_r.clear(); junk_c.clear();
+        for (size_t i = 0; i < ops.size(); ++i) if (bits(ops[i]) != snap[i]) failp(ref_threw ? "C03:mismatch-modified" : "C03:operand-modified", "named operand " + std::to_string(i) + " changed");
+    }
+    // unrelated work of the program between binding a result and reading it
+    void churn() {
+        const int n = ref_n;
+        for (int k = 0; k < 3; ++k) {
+            arr_real x(n); for (auto& v : x) v = -777.0 - k;
+            arr_cmplx z(n); for (auto& v : z) v = cmplx_t(-888.0 - k, -999.0);
+            junk_r.push_back(std::move(x)); junk_c.push_back(std::move(z));
+        }
+        junk_r.push_back(2.0 * (junk_r[0] + junk_r[1]));
+        junk_r.push_back(junk_r[0] - (junk_r[1] * junk_r[2]));
+        junk_r.push_back((-junk_r[0]) | (junk_r[1] / 3));
+        junk_c.push_back(cmplx_t(0, 1) * (junk_c[0] - junk_c[1]));
+        junk_c.push_back(junk_c[0] - (junk_c[1] * junk_r[2]));
+        junk_c.push_back((-junk_c[2]) | (2 * junk_c[1]));
+    }
+    void threw() {
+        out.n_oracle++;
+        if (isvalue()) { have_direct = true; direct_threw = true; }
+        if (!ref_threw) failp("C03:throws-valid", "the compiled expression threw, the step-by-step evaluation through named arrays did not");
+    }
+    void cmp(const RV& v, const std::string& how) {
+        out.n_oracle++;
+        if (ref_threw) { failp("C03:mismatch-accepted", how + ": accepted, the step-by-step evaluation through named arrays threw"); return; }
+        if (v.cx != ref_cx) { failp("C03:result-kind", how); return; }
+        const auto b = bits(v);
+        const auto& rb = base();
+        if (b.size() != rb.size()) { failp(lifekey(), how + ": length " + std::to_string(v.size()) + ", " + basename() + " " + std::to_string(rb.size() / (v.cx ? 2 : 1))); return; }
+        for (size_t i = 0; i < b.size(); ++i)
+            if (!same_word(b[i], rb[i])) {
+                double g, w; std::memcpy(&g, &b[i], 8); std::memcpy(&w, &rb[i], 8);
+                char buf[400];
+                std::snprintf(buf, sizeof buf, "%s: component %zu (element %zu) is %.17g [%016llx], %s: %.17g [%016llx]", how.c_str(), i, v.cx ? i / 2 : i, g,
+                              (unsigned long long)b[i], basename(), w, (unsigned long long)rb[i]);
+                failp(lifekey(), buf);
+                return;
+            }
+    }
+    template<class R> void got(const R& r) {
+        const RV v = refv(r);
+        cmp(v, "result");
+        if (isvalue() && !have_direct) { direct_txt = showvz(v); direct = bits(v); have_direct = true; }
+    }
+    template<class R> void got2(const R& r, const R& r2) {
+        cmp(refv(r), "first of two live results");
+        cmp(refv(r2), "second of two live results");
+        if (r.size() && r.data() == r2.data()) failp("C03:temporary-lifetime", "two live results of the same expression share storage");
+    }
+    template<class R> void sink(const R& r) { churn(); got(r); }
+    void rf_elem(const real_t& v) { rf.push_back(bitsof(v)); }
+    void rf_elem(const cmplx_t& v) { rf.push_back(bitsof(v.re)); rf.push_back(bitsof(v.im)); }
+    void rf_done(bool cx) {
+        out.n_oracle++;
+        if (ref_threw) { failp("C03:mismatch-accepted", "range-for accepted"); return; }
+        if (cx != ref_cx) { failp("C03:result-kind", "range-for"); return; }
+        const auto& rb = base();
+        if (rf.size() != rb.size()) { failp("C03:temporary-lifetime", "range-for visited " + std::to_string(rf.size() / (cx ? 2 : 1)) + " elements, " + basename() + " has " + std::to_string(rb.size() / (cx ? 2 : 1))); return; }
+        for (size_t i = 0; i < rf.size(); ++i)
+            if (!same_word(rf[i], rb[i])) {
+                double g, w; std::memcpy(&g, &rf[i], 8); std::memcpy(&w, &rb[i], 8);
+                char buf[400];
+                std::snprintf(buf, sizeof buf, "range-for: component %zu is %.17g [%016llx], %s: %.17g [%016llx]", i, g, (unsigned long long)rf[i], basename(), w, (unsigned long long)rb[i]);
+                failp("C03:temporary-lifetime", buf);
+                return;
+            }
+    }
+    template<class A> void unchanged(const A& a, const A& a0) {
+        if (bits(refv(a)) != bits(refv(a0))) failp("C03:mismatch-modified", "target of the rejected compound form changed");
+    }
+    void keep(const arr_real& a) { keep_r = std::make_shared<arr_real>(a); }
+    void keep(const arr_cmplx& a) { keep_c = std::make_shared<arr_cmplx>(a); }
+    void static_ref(bool is_ref) {
+        out.n_oracle++;
+        if (is_ref) failp("C03:result-not-owned", "the operator expression is not a prvalue: its type is a reference, the result does not own its storage");
+    }
+};
+
+// one form: `ev` (SFINAE-friendly; also builds the tree with Sym operands and is the decltype(auto)-style return probe) + the probes.
+// FORM: every consumption idiom. FORML ("light", for the deeper / derived forms whose top-level operators repeat those of the
+// FORM ones): copy-initialisation, const auto& and range-for. ARITY = number of array operands used (a | a,b | a,b,c): selects the
+// operand-kind combinations that are instantiated.
+#define FORM_HEAD(NAME, ARITY, EXPR) \
+        static constexpr int stag = S_E, opc = 0, arity = ARITY; \
+        static const char* name() { return #NAME; } \
+        static const char* text() { return #EXPR; } \
+        template<class A, class B, class C, class D, class S> \
+        static auto ev(const A& a, const B& b, const C& c, const D& d, const S& s, const Aux& q) -> decltype(EXPR) { (void)a; (void)b; (void)c; (void)d; (void)s; (void)q; return EXPR; } \
+        template<class RT, class A> static constexpr bool kind_ok() { return true; }
+#define FORM(NAME, ARITY, EXPR) \
+    struct F_##NAME { \
+        FORM_HEAD(NAME, ARITY, EXPR) \
+        template<class A, class B, class C, class D, class S> \
+        static void probes(const A& a, const B& b, const C& c, const D& d, const S& s, const Aux& q, Probe& P) { \
+            (void)a; (void)b; (void)c; (void)d; (void)s; (void)q; \
+            typedef std::decay_t<decltype(EXPR)> RT; \
+            try { \
+                P.begin("value"); P.static_ref(std::is_reference_v<decltype(EXPR)>); { RT r = EXPR; P.got(r); } \
+                P.begin("constref"); { const auto& r = EXPR; P.churn(); P.got(r); const auto& r2 = EXPR; P.churn(); P.got2(r, r2); } \
+                P.begin("autorr"); { auto&& r = EXPR; P.churn(); P.got(r); } \
+                P.begin("rangefor"); { P.rf.clear(); size_t k = 0; for (const auto& v : EXPR) { if (k++ == 0) P.churn(); P.rf_elem(v); } P.rf_done(std::is_same_v<RT, arr_cmplx>); } \
+                P.begin("sink"); P.sink(EXPR); \
+                P.begin("member"); { const Holder<RT> h{EXPR}; P.churn(); P.got(h.r); } \
+                P.begin("return"); { auto&& r = ev(a, b, c, d, s, q); P.churn(); P.got(r); } \
+            } catch (const std::exception&) { P.threw(); } \
+            P.end(); \
+        } \
+    };
+#define FORML(NAME, ARITY, EXPR) \
+    struct F_##NAME { \
+        FORM_HEAD(NAME, ARITY, EXPR) \
+        template<class A, class B, class C, class D, class S> \
+        static void probes(const A& a, const B& b, const C& c, const D& d, const S& s, const Aux& q, Probe& P) { \
+            (void)a; (void)b; (void)c; (void)d; (void)s; (void)q; \
+            typedef std::decay_t<decltype(EXPR)> RT; \
+            try { \
+                P.begin("value"); P.static_ref(std::is_reference_v<decltype(EXPR)>); { RT r = EXPR; P.got(r); } \
+                P.begin("constref"); { const auto& r = EXPR; P.churn(); P.got(r); } \
+                P.begin("rangefor"); { P.rf.clear(); size_t k = 0; for (const auto& v : EXPR) { if (k++ == 0) P.churn(); P.rf_elem(v); } P.rf_done(std::is_same_v<RT, arr_cmplx>); } \
+            } catch (const std::exception&) { P.threw(); } \
+            P.end(); \
+        } \
+    };
+// compound form `a OP EXPR` on a named copy of a (EXPR may mention a: aliasing through a temporary)
+#define FORMCA(NAME, ARITY, STAG, OPC, OP, EXPR) \
+    struct F_##NAME { \
+        static constexpr int stag = STAG, opc = OPC, arity = ARITY; \
+        static const char* name() { return #NAME; } \
+        static const char* text() { return "a " #OP " " #EXPR; } \
+        template<class A, class B, class C, class D, class S> \
+        static auto ev(const A& a, const B& b, const C& c, const D& d, const S& s, const Aux& q) -> decltype(EXPR) { (void)a; (void)b; (void)c; (void)d; (void)s; (void)q; return EXPR; } \
+        template<class RT, class A> static constexpr bool kind_ok() { return std::is_same_v<A, arr_cmplx> || std::is_same_v<RT, arr_real>; } \
+        template<class A, class B, class C, class D, class S> \
+        static void probes(const A& a0, const B& b, const C& c, const D& d, const S& s, const Aux& q, Probe& P) { \
+            (void)b; (void)c; (void)d; (void)s; (void)q; \
+            P.begin("compound"); \
+            { A a = a0; try { a OP EXPR; P.got(a); P.keep(a); } catch (const std::exception&) { P.threw(); P.unchanged(a, a0); } } \
+            P.end(); \
+        } \
+    };
+
+// X = all idioms, Y = light
+#define BINF(X, Y, N, OP) \
+    X(N##_lt, 2, a OP tmp(b)) X(N##_tl, 2, tmp(a) OP b) X(N##_tt, 2, tmp(a) OP tmp(b)) X(N##_n2r, 3, a OP (b * c)) X(N##_n2l, 3, (a * c) OP b) \
+    Y(N##_n2b, 3, (a + b) OP (b * c)) Y(N##_n2s, 3, (a - b) OP (c - b)) Y(N##_n2m, 3, a * (b OP c)) Y(N##_n2d, 3, (a OP b) / c)
+#define ARR_FORMS(X, Y) \
+    BINF(X, Y, add, +) BINF(X, Y, sub, -) BINF(X, Y, mul, *) BINF(X, Y, div, /) \
+    Y(d3_a, 3, a - ((b * c) - (a + b))) Y(d3_b, 3, ((a + b) * (b - c)) / (c + tmp(a))) Y(d3_c, 3, a + (b - (c * (a / tmp(b))))) \
+    Y(d3_d, 3, -(a - (b * c)) + (tmp(c) - b)) Y(d3_e, 3, (a - (b * c)) - ((c * b) - a)) Y(d3_f, 3, ((a - b) - (b - a)) * (c - tmp(c))) \
+    Y(d3_g, 3, (a * (b - tmp(b))) - (c * (a - tmp(a)))) Y(d3_h, 3, a / ((b - c) + (c - b))) Y(d3_i, 2, (tmp(a) - a) - (tmp(b) - b)) \
+    X(neg_t, 1, -tmp(a)) X(neg_add, 2, -(a + b)) Y(neg_sub, 2, -(a - b)) Y(sub_neg, 2, a - (-b)) Y(neg_neg, 1, -(-tmp(a))) Y(pos_in, 3, (+(a - b)) - c) Y(pos_in2, 2, a - (+tmp(b))) \
+    X(cat_lt, 2, a | tmp(b)) X(cat_tl, 2, tmp(a) | b) X(cat_tt, 2, tmp(a) | tmp(b)) Y(cat_n, 3, (a - b) | (b * c)) Y(cat_sub, 2, (a | b) - (tmp(b) | a)) Y(neg_cat, 2, -(a | tmp(b))) Y(cat3, 3, (a | b) | (c | tmp(a))) \
+    X(mask_t, 1, tmp(a)[q.m]) X(mask_sub, 2, (a - b)[q.m]) X(idx_mul, 2, (a * b)[q.ix]) X(idxa_t, 1, tmp(a)[q.ia]) Y(idxa_sub, 2, (a - tmp(b))[q.ia]) Y(mask_both, 3, (a - b)[q.m] - tmp(c)[q.m]) \
+    Y(sel_cat, 3, a[q.m] | (b - c)[q.ix]) Y(neg_idx, 2, -((a + b)[q.ix])) \
+    Y(err_sub, 1, a - tmp(d)) Y(err_mul, 2, tmp(d) * b) Y(err_div, 3, (a + b) / (c | d)) Y(err_mask, 1, tmp(a)[q.md]) Y(err_idx, 2, (a - b)[q.ibad]) Y(err_in, 3, a - ((b * d) - c))
+#define SCF(X, Y, N, OP) \
+    X(N##_st, 1, s OP tmp(a)) X(N##_ts, 1, tmp(a) OP s) X(N##_sn, 2, s OP (a + b)) X(N##_ns, 2, (a - b) OP s) Y(N##_sneg, 1, s OP (-a)) Y(N##_s2, 2, s OP (s * (a - b)))
+#define SC_FORMS(X, Y) \
+    SCF(X, Y, sadd, +) SCF(X, Y, ssub, -) SCF(X, Y, smul, *) SCF(X, Y, sdiv, /) \
+    Y(sc_a, 2, (s * tmp(a)) - (tmp(b) * s)) Y(sc_b, 2, s - (s * (a - b))) Y(sc_c, 2, (s + a) - (b + s)) Y(sc_d, 2, s / (s - (a * b))) Y(sc_e, 2, (s * (a - b)) * s) \
+    Y(sc_f, 2, -(s * (a + b))) Y(sc_g, 2, (s * (a + b)) | (tmp(a) * s)) Y(sc_h, 2, (s * (a - b))[q.m]) Y(sc_i, 2, a - (s * b)) Y(sc_j, 1, (a * s) - (s * a)) Y(sc_k, 1, s * (s * (s * tmp(a))))
+#define ZM_FORMS(X, Y) \
+    X(zm_st, 1, s * tmp(a)) X(zm_ts, 1, tmp(a) * s) X(zm_sn, 2, s * (a + b)) X(zm_ns, 2, (a - b) * s) Y(zm_n, 2, (s * tmp(a)) - (b * s))
+#define CAF(X, N, OPC, OP) \
+    X(N##_t, 2, S_CA, OPC, OP, tmp(b)) X(N##_n, 3, S_CA, OPC, OP, (b * c)) X(N##_al, 2, S_CA, OPC, OP, (a - tmp(b))) X(N##_al2, 3, S_CA, OPC, OP, (a * (c - a)))
+#define CA_FORMS(X, Y) \
+    CAF(X, cadd, ADD, +=) CAF(X, csub, SUB, -=) CAF(X, cmul, MUL, *=) CAF(X, cdiv, DIV, /=) \
+    X(ca_err, 1, S_CA, SUB, -=, tmp(d)) X(ca_err2, 2, S_CA, MUL, *=, (b | d)) \
+    X(cata_t, 2, S_CATA, 0, |=, tmp(b)) X(cata_n, 3, S_CATA, 0, |=, (b - c)) X(cata_al, 1, S_CATA, 0, |=, (a | tmp(a))) X(cata_al2, 1, S_CATA, 0, |=, -a)
+ARR_FORMS(FORM, FORML) SC_FORMS(FORM, FORML) ZM_FORMS(FORM, FORML) CA_FORMS(FORMCA, FORMCA)
+template<class... Fs> struct TL {};
+struct FNone {};
+#define TLN(N, ...) , F_##N
+typedef TL<FNone ARR_FORMS(TLN, TLN)> ArrForms;
+typedef TL<FNone SC_FORMS(TLN, TLN)> ScForms;
+typedef TL<FNone ZM_FORMS(TLN, TLN)> ZmForms;
+typedef TL<FNone CA_FORMS(TLN, TLN)> CaForms;
+
+template<class F, class A, class B, class C, class D, class S, class = void> struct FormValid : std::false_type {};
+template<class F, class A, class B, class C, class D, class S>
+struct FormValid<F, A, B, C, D, S,
+                 std::void_t<decltype(F::ev(std::declval<const A&>(), std::declval<const B&>(), std::declval<const C&>(), std::declval<const D&>(), std::declval<const S&>(), std::declval<const Aux&>()))>>
+  : std::true_type {};
+
+// ---- type-erased table of the instantiated forms: everything that does not need the static types lives in run_entry (one copy)
+struct ScVal {   // one scalar in its four static types
+    int kind = 0; real_t r = 0; int i = 0; cmplx_t c; std::complex<double> z;
+    template<class S> const S& get() const {
+        if constexpr (std::is_same_v<S, real_t>) return r; else if constexpr (std::is_same_v<S, int>) return i; else if constexpr (std::is_same_v<S, cmplx_t>) return c; else return z;
+    }
+    Sc sc() const { return kind == 0 ? mksc(r) : kind == 1 ? mksc(i) : kind == 2 ? mksc(c) : mksc(z); }
+};
+template<class X> static const X& varget(const Var& v) { if constexpr (std::is_same_v<X, arr_cmplx>) return v.c; else return v.r; }
+typedef void (*ProbeFn)(const std::vector<Var>&, const ScVal&, const Aux&, Probe&);
+typedef Expr (*TreeFn)(const ScVal&, const Aux&);
+struct FormEntry {
+    const char *name = "", *text = "";
+    int stag = 0, opc = 0, arity = 3;
+    TreeFn tree[4] = {nullptr, nullptr, nullptr, nullptr};        // by scalar kind
+    ProbeFn probe[8][4] = {};                                     // [4*A + 2*B + C][scalar kind]; nullptr: not instantiated
+    bool not_compilable[8][4] = {};
+};
+template<class F, class A, class B, class C, class S> static void probe_thunk(const std::vector<Var>& v, const ScVal& s, const Aux& q, Probe& P) {
+    F::probes(varget<A>(v[0]), varget<B>(v[1]), varget<C>(v[2]), varget<A>(v[3]), s.get<S>(), q, P);
+}
+template<class F, class S> static Expr tree_thunk(const ScVal& s, const Aux& q) { return F::ev(symvar(0), symvar(1), symvar(2), symvar(3), s.get<S>(), q).e; }
+template<class S> constexpr int skind_of() { return std::is_same_v<S, real_t> ? 0 : std::is_same_v<S, int> ? 1 : std::is_same_v<S, cmplx_t> ? 2 : 3; }
+template<class F, class A, class B, class C, class S> static void add_combo(FormEntry& e) {
+    constexpr int ki = 4 * std::is_same_v<A, arr_cmplx> + 2 * std::is_same_v<B, arr_cmplx> + std::is_same_v<C, arr_cmplx>;
+    constexpr int si = skind_of<S>();
+    if constexpr (F::arity < 3 && std::is_same_v<C, arr_cmplx>) return;       // c unused: one kind is enough
+    else if constexpr (F::arity < 2 && std::is_same_v<B, arr_cmplx>) return;
+    else if constexpr (!FormValid<F, A, B, C, A, S>::value) e.not_compilable[ki][si] = true;
+    else if constexpr (!F::template kind_ok<std::decay_t<decltype(F::ev(std::declval<const A&>(), std::declval<const B&>(), std::declval<const C&>(), std::declval<const A&>(), std::declval<const S&>(), std::declval<const Aux&>()))>, A>()) return;
+    else { e.probe[ki][si] = &probe_thunk<F, A, B, C, S>; e.tree[si] = &tree_thunk<F, S>; }
+}
+template<class F, class S, bool needComplexArrays> static void add_kinds(FormEntry& e) {   // needComplexArrays: arr_real op std::complex exists only for `*`
+    if constexpr (!needComplexArrays) {
+        add_combo<F, arr_real, arr_real, arr_real, S>(e); add_combo<F, arr_real, arr_real, arr_cmplx, S>(e);
+        add_combo<F, arr_real, arr_cmplx, arr_real, S>(e); add_combo<F, arr_real, arr_cmplx, arr_cmplx, S>(e);
+        add_combo<F, arr_cmplx, arr_real, arr_real, S>(e); add_combo<F, arr_cmplx, arr_real, arr_cmplx, S>(e);
+        add_combo<F, arr_cmplx, arr_cmplx, arr_cmplx, S>(e);
+    }
+    if constexpr (needComplexArrays && F::arity == 1) add_combo<F, arr_cmplx, arr_real, arr_real, S>(e);
+    else add_combo<F, arr_cmplx, arr_cmplx, arr_real, S>(e);
+}
+template<class F> static FormEntry base_entry() { FormEntry e; e.name = F::name(); e.text = F::text(); e.stag = F::stag; e.opc = F::opc; e.arity = F::arity; return e; }
+template<class... Fs> static void table_arr(TL<FNone, Fs...>, std::vector<FormEntry>& t) { ([&] { FormEntry e = base_entry<Fs>(); add_kinds<Fs, real_t, false>(e); t.push_back(e); }(), ...); }
+template<class... Fs> static void table_sc(TL<FNone, Fs...>, std::vector<FormEntry>& t) {
+    ([&] { FormEntry e = base_entry<Fs>(); add_kinds<Fs, real_t, false>(e); add_kinds<Fs, int, false>(e); add_kinds<Fs, cmplx_t, false>(e); add_kinds<Fs, std::complex<double>, true>(e); t.push_back(e); }(), ...);
+}
+template<class... Fs> static void table_zm(TL<FNone, Fs...>, std::vector<FormEntry>& t) {
+    ([&] { FormEntry e = base_entry<Fs>(); add_combo<Fs, arr_real, arr_real, arr_real, std::complex<double>>(e); add_combo<Fs, arr_real, arr_cmplx, arr_real, std::complex<double>>(e);
+           add_combo<Fs, arr_cmplx, arr_real, arr_real, std::complex<double>>(e); t.push_back(e); }(), ...);
+}
+
+// operand generator: components correlated so that exact cancellations, signed zeros and equal elements occur in every array
+struct FormGen {
+    vh::Rng& rng;
+    Gen g;
+    long long index = 0;
+    explicit FormGen(vh::Rng& r) : rng(r), g{r} {}
+    double zero() { return rng.coin() ? 0.0 : -0.0; }
+    double pal() {
+        static const double P[] = {1.0, -1.0, 2.0, 0.5, -3.0, 4.0, 0.0, -0.0};
+        const int c = int(rng.next() % 12);
+        return c < 8 ? P[c] : g.value();
+    }
+    void triple(double sv, double& x, double& y, double& z) {
+        const int p = int(rng.next() % 100);
+        const double v = g.value();
+        if (p < 22) { x = v; y = v; z = rng.coin() ? 1.0 : v; }                                        // a == b (and b*1 == a)
+        else if (p < 32) { x = zero(); y = zero(); z = rng.coin() ? zero() : g.value(); }               // signed zeros
+        else if (p < 42) { const int q = rng.range(-5, 5), r = rng.range(-5, 5); y = q; z = r; x = double(q) * r; }   // a == b*c exactly
+        else if (p < 50) { x = v; y = -v; z = rng.coin() ? v : -v; }                                    // a == -b
+        else if (p < 58) { x = y = z = v; }
+        else if (p < 70) { x = sv; y = rng.coin() ? sv : zero(); z = rng.coin() ? 1.0 : sv; }           // equals the scalar operand
+        else if (p < 76) { x = v; y = v; z = zero(); }
+        else { x = v; y = g.value(); z = g.value(); }
+    }
+    static void put(Var& v, int i, double re, double im) { if (v.cx) v.c[i] = cmplx_t(re, im); else v.r[i] = re; }
+    static void alloc(Var& v, bool cx, int n) { v.cx = cx; v.r = arr_real(cx ? 0 : n); v.c = arr_cmplx(cx ? n : 0); }
+    std::vector<Var> operands(int L, int ki, double sre, double sim) {
+        std::vector<Var> v(4);
+        alloc(v[0], ki & 4, L); alloc(v[1], ki & 2, L); alloc(v[2], ki & 1, L);
+        const bool realvalued = rng.next() % 4 == 0;   // complex arrays holding (x, +-0)
+        for (int i = 0; i < L; ++i) {
+            double xr, yr, zr, xi, yi, zi;
+            triple(sre, xr, yr, zr);
+            triple(sim, xi, yi, zi);
+            if (realvalued) { xi = zero(); yi = zero(); zi = zero(); }
+            put(v[0], i, xr, xi); put(v[1], i, yr, yi); put(v[2], i, zr, zi);
+        }
+        const int Ld = g.other_len(L);
+        alloc(v[3], ki & 4, Ld);
+        for (int i = 0; i < Ld; ++i) put(v[3], i, g.value(), g.value());
+        return v;
+    }
+    ScVal scalar(int kind) {
+        ScVal s; s.kind = kind;
+        static const int P[] = {1, -1, 0, 2, -3};
+        const int c = int(rng.next() % 8);
+        s.i = c < 5 ? P[c] : rng.range(-6, 6);
+        s.r = pal();
+        const double re = pal(), im = (rng.next() % 3 == 0) ? zero() : pal();
+        s.c = cmplx_t(re, im); s.z = std::complex<double>(re, im);
+        return s;
+    }
+    Aux aux(int L) {
+        Aux q;
+        q.m.resize(L); for (int i = 0; i < L; ++i) q.m[i] = rng.coin();
+        const int Ld = g.other_len(L);
+        q.md.resize(Ld); for (int i = 0; i < Ld; ++i) q.md[i] = rng.coin();
+        const int n = L == 0 ? 0 : rng.range(0, L + 2);
+        q.ix.resize(n); for (auto& j : q.ix) j = int(rng.next() % uint64_t(L));
+        q.ibad = q.ix;
+        if (q.ibad.empty()) q.ibad.push_back(L); else { const int bad[4] = {L, -1, L + 7, INT_MIN}; q.ibad[rng.next() % q.ibad.size()] = bad[rng.next() % 4]; }
+        q.ia = arr_int(q.ix);
+        return q;
+    }
+};
+static OV mkov(const Var& v) {
+    OV o; o.cx = v.cx;
+    const int n = v.cx ? v.c.size() : v.r.size();
+    for (int i = 0; i < n; ++i) o.v.push_back(v.cx ? CL(v.c[i].re, v.c[i].im) : CL(v.r[i]));
+    o.e.assign(n, 0); o.ok.assign(n, 1);
+    return o;
+}
+
+static void run_entry(const FormEntry& fe, int ki, int si, bool uses_scalar, FormGen& fg, int L, bool emit_corr) {
+    const std::string kinds = std::string(ki & 4 ? "C" : "R") + (ki & 2 ? "C" : "R") + (ki & 1 ? "C" : "R") + (uses_scalar ? std::string("_") + SKN[si] : std::string());
+    if (fe.not_compilable[ki][si]) { out.stat(std::string("form_not_compilable_") + fe.name + "_" + kinds); return; }
+    if (!fe.probe[ki][si]) return;
+    // ---- named operands
+    const ScVal s = fg.scalar(si);
+    const Sc ss = s.sc();
+    const std::vector<Var> ops = fg.operands(L, ki, ss.kind == 1 ? double(ss.iv) : ss.re, ss.im);
+    const Aux q = fg.aux(L);
+    // ---- the expression tree (same source text, symbolic operands)
+    Stmt st;
+    st.tag = (STag)fe.stag; st.op = fe.opc; st.k = 0;
+    st.e = fe.tree[si](s, q);
+    std::vector<Var> env = ops;
+    std::vector<OV> oenv;
+    std::string lhs = std::string("form ") + fe.name + " " + kinds + " 4";
+    for (auto& v : env) { oenv.push_back(mkov(v)); if (emit_corr) lhs += " " + showv(refvar(v)); }
+    std::string body;
+    show(st, body);
+    lhs += " 1" + body;
+    Probe P;
+    P.form = fe.name; P.text = fe.text; P.kinds = kinds; P.L = L; P.index = fg.index++;
+    if (L <= 6) {
+        P.operands_json = ",\"a\":" + jbits(refvar(ops[0])) + ",\"b\":" + jbits(refvar(ops[1])) + ",\"c\":" + jbits(refvar(ops[2])) + ",\"d\":" + jbits(refvar(ops[3]));
+        if (uses_scalar) P.operands_json += ",\"s\":\"" + show(ss) + "\"";
+    }
+    P.operands_json += ",\"tree\":\"" + (body.size() < 1500 ? body : std::string("(long)")) + "\"";
+    g_ctx = "\"form\":\"" + P.form + "\",\"expr\":\"" + P.text + "\",\"kinds\":\"" + kinds + "\",\"L\":" + std::to_string(L) + ",\"seed\":" + std::to_string((unsigned long long)g_seed) +
+            ",\"index\":" + std::to_string(P.index) + P.operands_json;
+    // ---- (1) step by step through named arrays (lvalue overloads only), (2) long double oracle
+    vh::Rng aux(fg.rng.next());
+    bool oerr = false;
+    OV want;
+    try { want = oexec(st, oenv); } catch (const OErr&) { oerr = true; }
+    g_allow_mv = false;
+    vh::set_current("C03:crash", "{" + g_ctx + "}");
+    RV steps;
+    try { steps = rexec(st, env, aux); } catch (const Threw&) { P.ref_threw = true; }
+    vh::clear_current();
+    g_allow_mv = true;
+    if (P.ref_threw && !oerr) fail("C03:throws-valid", "form, step by step");
+    if (!P.ref_threw && oerr) fail("C03:mismatch-accepted", "form, step by step");
+    if (!P.ref_threw && !oerr) compare(steps, want, "form, step by step");
+    if (!P.ref_threw) { P.ref = bits(steps); P.ref_cx = steps.cx; P.ref_n = steps.size(); }
+    // ---- (3) the compiled expression with its temporaries, in every consumption idiom
+    for (auto& o : ops) { P.ops.push_back(refvar(o)); P.snap.push_back(bits(P.ops.back())); }
+    fe.probe[ki][si](ops, s, q, P);
+    out.stat(P.ref_threw ? "forms_rejected" : "forms_ok");
+    out.stat(std::string("formkind_") + kinds);
+    out.stat(std::string("formdepth_") + std::to_string(depth(st.e) + (st.tag == S_E ? 0 : 1)));
+    // ---- CORR: the model evaluates the tree; the implementation side is the COMPILED expression's result
+    if (P.have_direct && emit_corr) {
+        std::string rhs = P.direct_threw ? "ERR" : P.direct_txt;
+        rhs += " ENV";
+        for (int k = 0; k < 4; ++k) {
+            if (k == 0 && st.tag != S_E && !P.direct_threw) rhs += " " + (P.keep_c ? showvz(refv(*P.keep_c)) : showvz(refv(*P.keep_r)));
+            else rhs += " " + showvz(P.ops[k]);
+        }
+        out.corr(lhs, rhs);
+        if (L >= 2 && L <= 4) out.sample("{\"form\":\"" + P.text + "\",\"kinds\":\"" + kinds + "\",\"case\":\"" + lhs + "\",\"result\":\"" + rhs + "\"}");
+    }
+}
+struct FormTables { std::vector<FormEntry> arr, sc; };
+static const FormTables& form_tables() {
+    static FormTables t;
+    if (t.arr.empty()) { table_arr(ArrForms{}, t.arr); table_arr(CaForms{}, t.arr); table_sc(ScForms{}, t.sc); table_zm(ZmForms{}, t.sc); }
+    return t;
+}
+static void forms_round(FormGen& fg, int L, int mode, bool emit_corr) {
+    fg.g.mode = mode;
+    const FormTables& t = form_tables();
+    for (auto& fe : t.arr) for (int ki = 0; ki < 8; ++ki) run_entry(fe, ki, 0, false, fg, L, emit_corr);
+    for (auto& fe : t.sc) for (int ki = 0; ki < 8; ++ki) for (int si = 0; si < 4; ++si) run_entry(fe, ki, si, true, fg, L, emit_corr);
+    out.stat("form_rounds");
+}
+template<class T> static void builder_forms(FormGen& fg, int L);
+// ---- array builders of utils.h / math.cpp applied to temporaries (not in the token language: the step-by-step side is written out)
+#define BFORM(TEXT, EXPR, ...) \
+    { \
+        Probe P; P.form = "builder"; P.text = TEXT; P.kinds = kinds; P.L = L; P.index = fg.index++; \
+        P.operands_json = L <= 6 ? ",\"a\":" + jbits(refv(a)) + ",\"b\":" + jbits(refv(b)) + ",\"c\":" + jbits(refv(c)) : std::string(); \
+        P.ops = {refv(a), refv(b), refv(c)}; for (auto& o : P.ops) P.snap.push_back(bits(o)); \
+        try { const auto ref = [&]() { __VA_ARGS__ }(); const RV rv = refv(ref); P.ref = bits(rv); P.ref_cx = rv.cx; P.ref_n = rv.size(); } catch (const std::exception&) { P.ref_threw = true; } \
+        typedef std::decay_t<decltype(EXPR)> RT; \
+        try { \
+            P.begin("value"); P.static_ref(std::is_reference_v<decltype(EXPR)>); { RT r = EXPR; P.got(r); } \
+            P.begin("constref"); { const auto& r = EXPR; P.churn(); P.got(r); } \
+            P.begin("autorr"); { auto&& r = EXPR; P.churn(); P.got(r); } \
+            P.begin("rangefor"); { P.rf.clear(); size_t k = 0; for (const auto& v : EXPR) { if (k++ == 0) P.churn(); P.rf_elem(v); } P.rf_done(std::is_same_v<RT, arr_cmplx>); } \
+        } catch (const std::exception&) { P.threw(); } \
+        P.end(); \
+        out.stat("builder_forms"); \
+    }
+template<class T> static void builder_forms(FormGen& fg, int L) {
+    typedef base_array<T> A;
+    constexpr bool cx = std::is_same_v<T, cmplx_t>;
+    const std::string kinds = cx ? "C" : "R";
+    const std::vector<Var> ops = fg.operands(L, cx ? 7 : 0, 1.0, 0.0);
+    const A &a = varget<A>(ops[0]), &b = varget<A>(ops[1]), &c = varget<A>(ops[2]);
+    const int pad = fg.rng.range(0, 5);
+    BFORM("concatenate(a - b, b * c)", concatenate(a - b, b * c), const A t1 = a - b; const A t2 = b * c; const A r = concatenate(t1, t2); return r;)
+    BFORM("concatenate(tmp(a), -b, a - c)", concatenate(tmp(a), -b, a - c), const A t1 = a; const A t2 = -b; const A t3 = a - c; const A r = concatenate(t1, t2, t3); return r;)
+    BFORM("zeropad(a - b, L + pad)", zeropad(a - b, L + pad), const A t1 = a - b; const A r = zeropad(t1, L + pad); return r;)
+    BFORM("zeropad(tmp(a), L) - b", zeropad(tmp(a), L) - b, const A t1 = a; const A t2 = zeropad(t1, L); const A r = t2 - b; return r;)
+    BFORM("zeropad(a * c, L - 1)", zeropad(a * c, L - 1), const A t1 = a * c; const A r = zeropad(t1, L - 1); return r;)
+    BFORM("a - zeropad(b[q], L)", a - zeropad(b[std::vector<int>{}], L), const A t1 = b[std::vector<int>{}]; const A t2 = zeropad(t1, L); const A r = a - t2; return r;)
+    if constexpr (cx) {
+        BFORM("real(a - b)", real(a - b), const A t1 = a - b; const arr_real r = real(t1); return r;)
+        BFORM("imag(tmp(a)) - real(b - a)", imag(tmp(a)) - real(b - a), const A t1 = a; const arr_real t2 = imag(t1); const A t3 = b - a; const arr_real t4 = real(t3); const arr_real r = t2 - t4; return r;)
+        BFORM("conj(a - b)", conj(a - b), const A t1 = a - b; const A r = conj(t1); return r;)
+        BFORM("a - conj(conj(tmp(a)))", a - conj(conj(tmp(a))), const A t1 = a; const A t2 = conj(t1); const A t3 = conj(t2); const A r = a - t3; return r;)
+        BFORM("complex(real(a - b), imag(tmp(c)))", complex(real(a - b), imag(tmp(c))), const A t1 = a - b; const arr_real t2 = real(t1); const arr_real t3 = imag(c); const A r = complex(t2, t3); return r;)
+    } else {
+        BFORM("complex(a - b, tmp(c))", complex(a - b, tmp(c)), const A t1 = a - b; const A t2 = c; const arr_cmplx r = complex(t1, t2); return r;)
+        BFORM("complex(tmp(a)) - complex(b, c)", complex(tmp(a)) - complex(b, c), const A t1 = a; const arr_cmplx t2 = complex(t1); const arr_cmplx t3 = complex(b, c); const arr_cmplx r = t2 - t3; return r;)
+        BFORM("complex(a - b, zeropad(c, L + 1))", complex(a - b, zeropad(c, L + 1)), const A t1 = a - b; const A t2 = zeropad(c, L + 1); const arr_cmplx r = complex(t1, t2); return r;)
+        BFORM("conj(a - b) - (a - b)", conj(a - b) - (a - b), const A t1 = a - b; const A t2 = conj(t1); const A r = t2 - t1; return r;)
+    }
+}
+#ifdef __clang__
+#pragma clang optimize on
+#endif
 
 // ------------------------------------------------------------------ scalar operators of types.h
 static std::string showc(const cmplx_t& z) { return vh::hx(z.re) + " " + vh::hx(z.im); }
@@ -845,6 +1431,12 @@ int main(int argc, char** argv) {
     g_seed = a.seed;
     vh::Rng rng(a.seed);
     long long pindex = 0;
+    auto t0 = std::chrono::steady_clock::now();
+    auto lap = [&](const char* name) {   // wall time per section (evidence)
+        const auto t1 = std::chrono::steady_clock::now();
+        out.stats[std::string("time_ms_") + name] = (long long)std::chrono::duration_cast<std::chrono::milliseconds>(t1 - t0).count();
+        t0 = t1;
+    };
     // every length 0..64
     const int perLen = a.thorough ? 120 : 14;
     for (int L = 0; L <= 64; ++L)
@@ -852,10 +1444,38 @@ int main(int argc, char** argv) {
             const int mode = (r % 4 == 3) ? 1 : 0;
             run_program(rng, L, mode, mode ? 3 : 6, 6, !a.thorough || r % 3 == 0, pindex++);   // thorough: every third program also goes through CORR
         }
+    lap("programs_len_0_64");
     // lengths sampled up to 1e4: a few through CORR, many through the oracle only
     const int bigCorr = a.thorough ? 16 : 8, bigOracle = a.thorough ? 1500 : 150;
     for (int r = 0; r < bigCorr; ++r) run_program(rng, big_len(rng), (r % 4 == 3) ? 1 : 0, 4, 3, true, pindex++);
     for (int r = 0; r < bigOracle; ++r) run_program(rng, big_len(rng), (r % 4 == 3) ? 1 : 0, 6, 5, false, pindex++);
+    lap("programs_len_65_10000");
+    // single large frames (above 2^16 and 2^17 elements, the first of them arriving after the smaller ones): oracle only
+    {
+        const int big[] = {65536, 65537, 131072, 131073, 98304, 196608};
+        const int nbig = a.thorough ? 12 : 2;
+        for (int r = 0; r < nbig; ++r) {
+            const int L = a.thorough ? big[r % 6] + (r >= 6 ? rng.range(1, 50) : 0) : (r == 0 ? 65537 : 131073);
+            run_program(rng, L, r % 2, 3, 2, false, pindex++);
+        }
+    }
+    lap("programs_large_frames");
+    // compiled expression forms with temporaries: value categories and lifetime of operator results
+    {
+        FormGen fg(rng);
+        int round = 0;
+        if (a.thorough) {
+            for (int rep = 0; rep < 3; ++rep) for (int L = 0; L <= 64; ++L) forms_round(fg, L, (round++ % 4 == 3) ? 1 : 0, rep == 0);
+            for (int r = 0; r < 6; ++r) forms_round(fg, big_len(rng), (round++ % 4 == 3) ? 1 : 0, false);
+        } else {
+            for (int L : {0, 1, 2, 3, 4, 5, 8, 13, 16, 33, 64}) forms_round(fg, L, (round++ % 4 == 3) ? 1 : 0, true);
+            forms_round(fg, rng.range(6, 64), 1, true);
+            forms_round(fg, rng.range(65, 600), 0, false);   // oracle only (the thorough tier goes up to 10^4)
+        }
+        for (int L = 0; L <= (a.thorough ? 64 : 16); ++L)
+            for (int rep = 0; rep < (a.thorough ? 6 : 2); ++rep) { fg.g.mode = (rep % 3 == 2); builder_forms<real_t>(fg, L); builder_forms<cmplx_t>(fg, L); }
+    }
+    lap("forms");
     // scalar operators, builders
     scalar_cases(rng, a.thorough ? 5000 : 2000);
     {
@@ -875,6 +1495,7 @@ int main(int argc, char** argv) {
             math_cases(g, rng, n);
         }
     }
+    lap("scalars_builders");
     out.stats["elements_claimed"] = g_claimed;
     out.stats["elements_outside_claimed_range"] = g_unclaimed;
     out.stats["worst_error_over_bound_ppm"] = (long long)(g_worst * 1e6L);
